@@ -212,11 +212,11 @@ void src_search<T, ES>::tune_parameters()
     vitaINFO << "Population size set to " << env.individuals;
   }
 
-  if (!constrained.dss.has_value() && typeid(this->vs_.get()) == typeid(dss))
+  if (!constrained.dss.has_value() && typeid(*this->vs_) == typeid(dss))
     env.dss = dflt.dss;
 
   if (!constrained.validation_percentage.has_value()
-      && typeid(this->vs_.get()) == typeid(holdout_validation))
+      && typeid(*this->vs_) == typeid(holdout_validation))
     env.validation_percentage = dflt.validation_percentage;
 
   Ensures(env.is_valid(true));
